@@ -124,10 +124,12 @@ func ValidQuery(schema *ast.Schema, query string) bool { panic("ghost") }
 //@ props C07 C13
 //@ requires g != nil && plan != nil && request != nil
 //@ ensures[fresh] result != nil ==> fresh(result)
-//@ ensures[data] result != nil ==> result.Data != nil
+// (C06: a non-nil result means the operation is answered without any downstream request: that may only happen for an
+// operation that asks for __schema / __type, never for a mutation that merely selects __typename next to its fields)
+//@ ensures[data] result != nil ==> result.Data != nil @props C07 C13 C06
 // the root steps come in map iteration order: whether the operation is answered by the
 // gateway itself must not depend on where the internal step is in the list
-//@ ensures[order-free] (result != nil) == exists(k, 0, len(plan.RootSteps), plan.RootSteps[k].URL == common.InternalServiceName && IsIntrospection(plan.RootSteps[k].SelectionSet)) @props C13
+//@ ensures[order-free] (result != nil) == exists(k, 0, len(plan.RootSteps), plan.RootSteps[k].URL == common.InternalServiceName && IsIntrospection(plan.RootSteps[k].SelectionSet)) @props C13 C06
 //@ modifies-assumed fresh
 //@ loop 0 invariant[none-yet] forall(k, 0, it, !(plan.RootSteps[k].URL == common.InternalServiceName && IsIntrospection(plan.RootSteps[k].SelectionSet)))
 //@ end
